@@ -151,14 +151,19 @@ def gen_kernel(rng, n, tier):
         N = 3 if name == 'DiracKernel' else 2 * int(supp) + 1
         m = rng.randint(N, N + 6)
         xs = [(None if rng.random() < 0.1 else float(rng.choice([0, 1, 2, -3, 7, 0.5, 2.25, 10]))) for _ in range(m)]
-        out.append({'kernel': name, 'size': size, 'boundary': boundary, 'x': xs})
+        out.append({'kernel': name, 'size': size, 'boundary': boundary, 'x': xs, 'default': rng.random() < 0.5,
+                    'other': rng.choice([None, None, 'GaussianKernel', 'TriangularKernel', 'UniformKernel'])})
     return out
 
 
 def mkkernel(case):
     import tracklib.core.kernel as K
     k = K.DiracKernel() if case['kernel'] == 'DiracKernel' else getattr(K, case['kernel'])(case['size'])
-    k.setFilterBoundary(case['boundary'])
+    if case['boundary'] or not case.get('default'):
+        k.setFilterBoundary(case['boundary'])     # 'default': a kernel that is never configured keeps the documented default (boundary values returned unchanged)
+    if case.get('other') is not None:             # another kernel object configured the other way in between: the setting belongs to the kernel it was made on
+        o = getattr(K, case['other'])(2)
+        o.setFilterBoundary(not case['boundary'])
     return k
 
 
